@@ -226,12 +226,11 @@ func (r *Run) asciiRune(v Value, what string) *Term {
 // allASCII forks; on the non-ASCII side the path is outside the model.
 func (r *Run) requireASCII(s StrV, what string) {
 	tt := r.eng.tt
-	c := tt.False
+	// one decision per byte keeps each condition over a single variable
 	for _, b := range s.B {
-		c = tt.Or(c, tt.Ule(tt.Const(8, 0x80), b))
-	}
-	if r.Branch(c) {
-		r.unsupported("%s on non-ASCII input", what)
+		if r.Branch(tt.Ule(tt.Const(8, 0x80), b)) {
+			r.unsupported("%s on non-ASCII input", what)
+		}
 	}
 }
 
@@ -534,12 +533,10 @@ func (r *Run) parseUintCore(s StrV, fnName string) (*Term, Value, bool) {
 	if len(s.B) == 0 {
 		return tt.Const(64, 0), r.numError("ErrSyntax"), false
 	}
-	all := tt.True
 	for _, b := range s.B {
-		all = tt.And(all, r.digitCond(b))
-	}
-	if !r.Branch(all) {
-		return tt.Const(64, 0), r.numError("ErrSyntax"), false
+		if !r.Branch(r.digitCond(b)) {
+			return tt.Const(64, 0), r.numError("ErrSyntax"), false
+		}
 	}
 	digits := s.B
 	// Strip digits beyond 19 that must be zero for the value to fit.
@@ -1237,6 +1234,9 @@ func rtParam(r *Run, fn *ssa.Function, a []Value) Value {
 	name := r.rtName(a[0])
 	v, ok := r.job.Params[name]
 	if !ok {
+		if strings.HasPrefix(name, "kf_") {
+			return r.mkInt(0)
+		}
 		r.unsupported("missing job parameter %q", name)
 	}
 	return r.mkInt(v)
